@@ -31,14 +31,23 @@ Definition is_neg (m : Z) : bool := (m <? 0)%Z.
 Definition kerr (op : string) (w : fw) : Z :=
   match w with
   | W32 => if is_op op "Tanh" then 8 else 2
-  | W64 => 8
+  | W64 => if is_op op "Tan" then 64 else 8     (* Go's math.Tan returns x for |x| < 1e-7: 15 ulp *)
   end.
+(* Go's math.Sin/Cos/Tan reduce the argument with a three-part pi/4: an argument perturbation of
+   relative size 2^-90 covers the reduction error near the zeros of the function *)
+Definition perturb (p : I.type) : I.type := I.mul prec p (iv (2 ^ 90 - 1) (-90) (2 ^ 90 + 1) (-90)).
+(* Sinh and Cosh are computed from exp(|x|): when that overflows IEEE gives an infinity although the
+   value itself may still be finite (|x| within ln 2 of the overflow threshold) *)
+(* (a factor 2 of slack: the overflow threshold of a float exp kernel is a rounded constant) *)
+Definition exp_overflows (w : fw) (p : I.type) : bool := negb (I.subset (I.mul prec itwo (sexp (I.abs p))) (I.bnd F.nan (maxfin w))).
+Definition up_to_inf (E : I.type) : I.type := I.join E (I.bnd (I.upper E) F.nan).
+Definition down_to_inf (E : I.type) : I.type := I.join E (I.bnd F.nan (I.lower E)).
 
 (* Sigmoid as composed in ops/activation.go: 1 / (1 + exp(-x)); gorgonia's float32 Exp has a relative
    error growing with |x| (allowance (8 + 4|x|) u); when exp(-x) overflows IEEE gives 1/(1+Inf) = 0 *)
 Definition sigmoid_encl (w : fw) (p : I.type) (absx_ceil : Z) : I.type :=
   let kexp := match w with W32 => 8 + 4 * absx_ceil | W64 => 4 end in
-  let e := widen w kexp (I.exp prec (I.neg p)) in
+  let e := widen w kexp (sexp (I.neg p)) in
   let overflow := negb (I.subset e (I.bnd F.nan (maxfin w))) in
   let r := f_div w ione (f_add w ione e) in
   let r := I.join r (widen w (kerr "Sigmoid" w + 4) (r_sigmoid p)) in
@@ -68,9 +77,9 @@ Definition unary_expect (op : string) (w : fw) (x : Z) : option expect :=
       else if is_op op "Relu" then Some (XEncl (if is_pos m then p else izero))
       else if is_op op "Sigmoid" then Some (XEncl (sigmoid_encl w p (abs_ceil m e)))
       else if is_op op "Tanh" then Some (XEncl (widen w K (r_tanh p)))
-      else if is_op op "Sin" then Some (XEncl (widen w K (I.sin prec p)))
-      else if is_op op "Cos" then Some (XEncl (widen w K (I.cos prec p)))
-      else if is_op op "Tan" then Some (XEncl (widen w K (I.tan prec p)))
+      else if is_op op "Sin" then Some (XEncl (widen w K (ssin (perturb p))))
+      else if is_op op "Cos" then Some (XEncl (widen w K (scos (perturb p))))
+      else if is_op op "Tan" then Some (XEncl (widen w K (stan (perturb p))))
       else if is_op op "Asin" then
         Some (if negb (within1 p) then XNaN
               else if I.subset p ione then XEncl (widen w K half_pi)
@@ -82,8 +91,11 @@ Definition unary_expect (op : string) (w : fw) (x : Z) : option expect :=
               else if I.subset p (I.neg ione) then XEncl (widen w K (I.pi prec))
               else XEncl (widen w K (r_acos p)))
       else if is_op op "Atan" then Some (XEncl (widen w K (I.atan prec p)))
-      else if is_op op "Sinh" then Some (XEncl (widen w K (r_sinh p)))
-      else if is_op op "Cosh" then Some (XEncl (widen w K (r_cosh p)))
+      else if is_op op "Sinh" then
+        Some (XEncl (let E := widen w K (r_sinh p) in
+                     if exp_overflows w p then (if is_pos m then up_to_inf E else down_to_inf E) else E))
+      else if is_op op "Cosh" then
+        Some (XEncl (let E := widen w K (r_cosh p) in if exp_overflows w p then up_to_inf E else E))
       else if is_op op "Asinh" then Some (XEncl (widen w K (r_asinh p)))
       else if is_op op "Acosh" then Some (if ge1 p then XEncl (widen w K (r_acosh p)) else XNaN)
       else if is_op op "Atanh" then
@@ -184,29 +196,8 @@ Definition judge (c : opcase) : Z :=
   else if is_op (oc_op c) "Not" then match oc_ins c with [Some x] => judge_not x (oc_obs c) | _ => 4 end
   else match oc_ins c with [Some x] => judge_unary (oc_op c) x (oc_obs c) | _ => 4 end.
 
-(* M where it is known to deviate from S (known-finding classes):
-   K1  Relu as X * (X > 0): Relu(-Inf) = -Inf * 0 = NaN
-   K2  Abs on an unsigned integer type: accepted by the gate, refused by gorgonia's Abs *)
-Definition has_neg_inf (x : tval) : bool :=
-  match fw_of (dt x) with Some w => existsb (fun b => match decode w b with VInf true => true | _ => false end) (pl x) | None => false end.
-Definition relu_code_ok (x : tval) (obs : observed) : bool :=
-  match fw_of (dt x), obs with
-  | Some w, OOk [Some o] =>
-      same_frame x o && all2 (fun xi oi => match decode w xi with
-                                           | VInf true => match decode w oi with VNaN => true | _ => false end
-                                           | _ => match unary_expect "Relu" w xi with Some e => elem_ok w oi e | None => false end
-                                           end) (pl x) (pl o)
-  | _, _ => false
-  end.
-Definition known_class (c : opcase) : option Z :=
-  match oc_ins c with
-  | [Some x] =>
-      if is_op (oc_op c) "Relu" && has_neg_inf x && relu_code_ok x (oc_obs c) then Some 1
-      else if is_op (oc_op c) "Abs" && (match dt x with Uint8 | Uint16 | Uint32 | Uint64 => true | _ => false end)
-              && (match oc_obs c with OErr EOther => true | _ => false end) then Some 2
-      else None
-  | _ => None
-  end.
+(* no known-finding class is left: Relu(-Inf) = NaN and Abs on unsigned types were repaired *)
+Definition known_class (c : opcase) : option Z := None.
 
 Definition verdict (c : opcase) : Z :=
   let j := judge c in
